@@ -17,6 +17,7 @@ UNITS = {
     "fast_forward": {"template": "contracts/fast_forward.vrs", "rlimit": 60},
     "fingerprint": {"template": "contracts/fingerprint.vrs", "rlimit": 60},
     "validate_conds": {"template": "contracts/validate_conds.vrs", "rlimit": 60},
+    "drivers": {"template": "contracts/drivers.vrs", "rlimit": 60},
     "mempool_visitor": {"template": "contracts/mempool_visitor.vrs", "rlimit": 60},
     "generator_len": {"template": "contracts/generator_len.vrs", "rlimit": 30},
     "aggsig": {"template": "contracts/aggsig.vrs", "rlimit": 60},
@@ -135,14 +136,14 @@ PROPS["C04"] = {
     "level": "proof",
     "technique": "Verus contracts on the real cost code (constants, subtract_cost, interned_vbytes, unknown-condition cost indexing) plus exhaustive native evaluation of the 2-byte cost table against the closed form",
     "level_text": "Deductive proof of the cost constants, of subtract_cost (succeeds iff the charge fits, exact at the limit, frame on failure), of interned_vbytes == sum(atom_len)+2*atoms+3*pairs, and of the low-byte indexing of the unknown-condition table; the 65536 values of compute_unknown_condition_cost are decided exhaustively by evaluating the real function against an independent big-integer closed form.",
-    "level_note": "parse_conditions' accounting is proved: the three accumulators (limit, bundle, spend) move by exactly the table cost of each condition, charged before its arguments are parsed, with CostExceeded exactly when the charge does not fit; SPEND_COST in process_single_spend. The driver exits (ret.cost == max_cost - cost_left) are not yet under contract. CLVM execution cost is whatever run_program returns (assumed).",
-    "components": [V("costs"), V("conditions_effects"), N("native_cost_table", "cost_table")],
+    "level_note": "parse_conditions' accounting is proved: the three accumulators (limit, bundle, spend) move by exactly the table cost of each condition, charged before its arguments are parsed, with CostExceeded exactly when the charge does not fit; SPEND_COST in process_single_spend. The driver exits are proved in unit drivers: run_spendbundle and run_block_generator2 report exactly generator size cost (serialized length minus the quote wrapper, resp. program length, resp. interned virtual bytes, times cost_per_byte) + CLVM execution cost + condition cost, never more than the limit, every charge through subtract_cost, under the cost-conservation contract of process_single_spend proved in unit conditions_aggsig. CLVM execution cost is whatever run_program returns (assumed <= the budget it was given).",
+    "components": [V("costs"), V("conditions_effects"), N("native_cost_table", "cost_table"), V("drivers")],
     "assumptions": [
         "clvmr cost model (run_program's reported cost) and intern_tree contract",
         "allocator limits (< 2^32 heap bytes / atoms / pairs) as the precondition of interned_vbytes",
     ],
     "not_covered": [
-        "cost at the exits of run_block_generator / run_block_generator2 / run_spendbundle and the exact-limit lemma",
+        "the legacy run_block_generator (ROM path) exit; get_coinspends/additions_and_removals do not report cost",
     ],
 }
 
@@ -269,11 +270,11 @@ PROPS["C08"] = {
     "level": "proof",
     "technique": "Verus contracts on the real clvm_bytes_len and calculate_generator_length (extracted; generic parameter monomorphised) against the CLVM serialisation-length spec of (q . (spends)); QUOTE_BYTES lemma",
     "level_text": "Deductive proof for every list of coin spends (any reveals, any u64 amounts): the predicted generator length equals the serialized length of the quoted spend list, 5 + sum(39 + |puzzle| + ser_len(canon(amount)) + |solution|) as derived from the serialisation format, and the quote-wrapper overhead is exactly 2 bytes.",
-    "level_note": "Agreement of run_spendbundle with run_block_generator2 over build_generator(bundle), back-reference compression and the block builders are not under contract (they need CLVM execution / Serializer contracts).",
-    "components": [V("generator_len"), V("int_encoders")],
+    "level_note": "Unit drivers: calculate_base_cost is proved to charge the serialized length without the 2-byte quote wrapper (interned virtual bytes under INTERNED_GENERATOR, whatever the number of spends), run_spendbundle to hand the parser (parent id, canonical amount) for every coin and to report size + execution + condition cost. Agreement of the two paths over generators built from the bundle needs CLVM execution: decided on 224 ground comparisons (28 bundles: coin amounts at every canonical-length boundary, 0/1/2/5 spends, rejected bundles) x plain / back-reference / builder generators x with and without INTERNED_GENERATOR: same verdict, same conditions, cost offset exactly the quote overhead, predicted length == emitted length.",
+    "components": [V("generator_len"), V("int_encoders"), V("drivers"), N("native_paths_ground", "paths_ground")],
     "assumptions": ["reveals are serialized CLVM (their byte length is their serialized length)", "Program::as_ref returns the wrapped bytes"],
     "not_covered": [
-        "run_spendbundle vs run_block_generator2 driver equivalence; calculate_base_cost INTERNED branch",
+        "run_spendbundle vs run_block_generator2 equivalence for all bundles (CLVM execution): ground comparisons only",
         "solution_generator / build_generator actually emit that many bytes; back-reference serialisation; block builders (C10)",
     ],
 }
